@@ -265,7 +265,8 @@ CAT = {}
 
 
 def entry(name, text, a, b, model, needs="num", keeps=(), out="num", first_only=False, max_n=None, last_only=False, eager=0):
-    # eager: items of its input the stage takes when it is BUILT, whatever is demanded later (ḣ computes the head at once)
+    # eager: items of its input the stage takes when it is BUILT, whatever is demanded later (ḣ computes the head at once;
+    # Ḣ and Ġ look at the first item).  Measured on the given tree for every entry: only these three take anything.
     CAT[name] = dict(name=name, text=text, a=a, b=b, model=model, needs=needs, keeps=set(keeps), out=out,
                      first_only=first_only, max_n=max_n, last_only=last_only, eager=eager)
 
@@ -310,11 +311,11 @@ entry("append0", "0 J", 1, 0, m_ident, needs="any", out="same", keeps=("inj", "c
 entry("merge_nat", "Þ∞ J", 1, 0, m_ident, needs="any", out="same", keeps=("inj", "consec"))
 for _k in (0, 1, 2, 3, 5, 8):
     entry(f"from{_k}", f"{_k}ȯ", 1, _k, m_drop(_k), needs="any", out="same", keeps=("inj", "consec"))
-entry("behead", "Ḣ", 1, 1, m_drop(1), needs="any", out="same", keeps=("inj", "consec"))
+entry("behead", "Ḣ", 1, 1, m_drop(1), needs="any", out="same", keeps=("inj", "consec"), eager=1)
 entry("head_extract", "ḣ $ _", 1, 1, m_drop(1), needs="any", out="same", keeps=("inj", "consec"), eager=1)
 entry("uniquify", "U", 1, 0, m_ident, needs="inj", out="same", keeps=("inj", "consec"))
 entry("uniq_mask", "ÞU", 1, 0, m_uniq_mask, needs="num", out="num")
-entry("group", "Ġ", 1, 1, m_group, needs="inj", out="list", keeps=("inj",))
+entry("group", "Ġ", 1, 1, m_group, needs="inj", out="list", keeps=("inj",), eager=1)
 entry("every_2nd_fn", "⁽› ẇ", 1, 0, m_every_other(lambda x: x + 1, False), needs="num")
 entry("every_2nd_fn2", "⁽d Ẇ", 1, 0, m_every_other(lambda x: 2 * x, True), needs="num")
 entry("unint_a", "y _", 2, 0, m_step2(0), needs="any", out="same", keeps=("inj",))
@@ -584,7 +585,9 @@ class C14(core.Check):
         def item_list(res, k):
             return [tm(res[i]) for i in range(k)]
 
-        world.CLOCK.start(budget=STEP_BUDGET)
+        # prefixes / windows make the WORK quadratic in the number of source items although the pulls stay linear
+        step_budget = min(20_000_000, STEP_BUDGET + 40 * need_of(A, max(n, 1)) ** 2)
+        world.CLOCK.start(budget=step_budget)
         try:
             with world.rec_limit(900):
                 if mode == "two" and B:
@@ -681,7 +684,7 @@ class C14(core.Check):
             return fail("hang", f"pull budget {budget} exhausted (bound {bound})")
         except world.StepBudgetExceeded:
             faults["step_budget"] = 1
-            return fail("spin", f"step budget {STEP_BUDGET} exhausted after {pulls[0]} pulls")
+            return fail("spin", f"step budget {step_budget} exhausted after {pulls[0]} pulls")
         except world.ValueTooBig:
             return dict(verdict=DISCARD, sig="too-big", log=log, steps=world.CLOCK.steps, hist=None)
         except Exception as e:
